@@ -159,6 +159,11 @@ func opDec(kind string, data []byte) string {
 	if strings.HasPrefix(out, "ok") && acceptedWithTaggedLabel(kind, data) {
 		out += " TAGGED-LABEL"
 	}
+	if strings.HasPrefix(out, "ok") {
+		if why := structureOfAccepted(kind, data); why != "" {
+			out += " BAD-STRUCTURE(" + strings.ReplaceAll(why, " ", "_") + ")"
+		}
+	}
 	return out
 }
 
